@@ -48,6 +48,8 @@ type c12Case struct {
 	Bomb string `json:"bomb,omitempty"`
 	// client negotiation steps
 	Step *c12StepPlan `json:"step,omitempty"`
+	// one message repeated
+	Repeat *c12Repeat `json:"repeat,omitempty"`
 }
 
 func c12Clip(s string, n int) string {
@@ -344,6 +346,8 @@ func TestVerifC12(t *testing.T) {
 			c12Bomb(rec, d.Bomb)
 		case "client-steps":
 			c12StepReplay(rec, &d)
+		case "repeat":
+			c12RepeatRun(rec, d.Seed, d.Thorough, d.Item, d.Repeat)
 		}
 		return
 	}
@@ -366,6 +370,12 @@ func TestVerifC12(t *testing.T) {
 	for item := 0; item < c12StepItems(rec.Thorough()); item++ {
 		if rec.Mine(n) {
 			c12StepItem(rec, rec.Thorough(), item)
+		}
+		n++
+	}
+	for item := 0; item < c12RepeatItems(); item++ {
+		if rec.Mine(n) {
+			c12RepeatRun(rec, rec.Seed(), rec.Thorough(), item, nil)
 		}
 		n++
 	}
